@@ -149,6 +149,16 @@ def check_origin(ctx, P, fk, what, value_of, need="fresh-or-param", inline_depth
             detail.append("%s from %s generator" % ("/".join(sorted({d[0] for d in good})), "+".join(kinds)))
             if need == "fresh" and "fresh" not in kinds:
                 ok = False
+            # entropy of the draw: a `gen` must produce at least 32 random bytes (a single byte repeated is 8 bits)
+            import re as _re
+
+            for d in good:
+                if d[0] == "gen":
+                    ty = (d[1].a[0][1] or ("", ""))[-1] if d[1].a[0][1] else ""
+                    m_ = _re.match(r"^\[u8; (\d+)\]$", str(ty))
+                    if not (m_ and int(m_.group(1)) >= 32):
+                        ok = False
+                        detail.append("draw of type `%s` carries fewer than 32 random bytes" % ty)
     ctx.ob("E6.origin", "%s/%s" % (fk, what), ok, "ephemeral `%s`: %s" % (what, "; ".join(detail)), where=where(f), sample={"fn": fk, "value": show(strip_sites(v), 6)[:300]})
     return v
 
